@@ -11,10 +11,7 @@ SLACK = 25      # tenths of a second on top of the two grace periods
 
 
 def _run(sc):
-    try:
-        return ld.run_scenario(dict(sc))
-    except BaseException as e:  # noqa
-        return {"error": "%s: %s" % (type(e).__name__, e)}
+    return ld.run_scenario_isolated(dict(sc))
 
 
 def to_trace(sc, evs):
@@ -46,6 +43,7 @@ def check_c16(ctx):
             print("MODEL-STALE: %s violated %s, expected %s" % (cfg, r.invariant_violated, sorted(expect)))
     scen = [{"beh": b, "path": p, "moment": m} for b in ld.BEHAVIOURS for p in ld.EXIT_PATHS for m in ld.MOMENTS]
     scen = [s for s in scen if not (s["beh"] == "unstartable" and (s["path"] != "normal" or s["moment"] != "beforeFirstMessage"))]
+    scen += ld.EXTRA_SCENARIOS
     reps = 1 if quick else 3
     scen = scen * reps
     res_evs = par.pmap(_run, scen, jobs=16, chunksize=1)
